@@ -18,7 +18,8 @@ RULE = ('makerandCIJ_und(n,K) n in {3,4} all K; makerandCIJ_dir(3,K) all K; make
         '{1,2,3}: all 2^16 threshold outcomes; maketoeplitzCIJ(3,K,s): all 2^9 outcomes per draw, up to two draws, '
         'maketoeplitzCIJ(4,K,s) one draw; makerandCIJdegreesfixed: every realisable pair of degree sequences on 3-4 nodes '
         'with total <= 5 (quick) / 6 (thorough); ALL generator answers per configuration; non-trivial = configuration with >= 2 '
-        'distinct outputs')
+        'distinct outputs; additionally makeringlatticeCIJ n=5..8 (every K), makerandCIJ_dir n=4,5, makerandCIJ_und n=5,6, makeevenCIJ n=8 '
+        'over a fixed subset of 2n+2 structured orders of their (too large) permutation menus - exhaustive over the parameters only')
 ASSUMPTIONS = ['a uniform draw compared with a probability p is represented by the points 0.0 and 0.999999: both outcomes '
                'for 0<p<1, the only possible outcome for p<=0 or p>=1',
                'makerandCIJdegreesfixed may give up with BCTParamError (documented heuristic); only returned matrices are judged',
@@ -74,6 +75,21 @@ def catalogue(thorough):
     if thorough:
         for K in (2, 6, 10):
             cfgs.append(('maketoeplitzCIJ', (4, K, 1.0)))
+    # larger parameter grids whose permutation menus exceed 8!: explored over a fixed subset of 2n+2 structured orders
+    # (marked 'subset'; exhaustive over the parameters, not over the answers)
+    for n in (5, 6, 7, 8):
+        for K in range(0, n * (n - 1) + 1):
+            if ('makeringlatticeCIJ', (n, K)) not in cfgs:
+                cfgs.append(('makeringlatticeCIJ', (n, K), 'subset'))
+    for n in (4, 5):
+        for K in range(0, n * (n - 1) + 1, 1 if n == 4 else 3):
+            cfgs.append(('makerandCIJ_dir', (n, K), 'subset'))
+    for n in (5, 6):
+        for K in range(0, n * (n - 1) // 2 + 1, 2):
+            cfgs.append(('makerandCIJ_und', (n, K), 'subset'))
+    for sz in (1, 2, 3):
+        for K in (0, 8, 16, 24, 25, 40, 56):
+            cfgs.append(('makeevenCIJ', (8, K, sz), 'subset'))
     for inv, outv in degree_pairs(3, 6):
         cfgs.append(('makerandCIJdegreesfixed', (list(inv), list(outv))))
     for inv, outv in degree_pairs(4, 6 if thorough else 4):
@@ -83,8 +99,8 @@ def catalogue(thorough):
 
 def plan(ctx):
     cf = catalogue(ctx.thorough)
-    heavy = [c for c in cf if c[0] in ('makefractalCIJ', 'maketoeplitzCIJ', 'makeringlatticeCIJ') or
-             (c[0] == 'makeevenCIJ' and c[1][2] == 1)]
+    heavy = [c for c in cf if len(c) == 2 and (c[0] in ('makefractalCIJ', 'maketoeplitzCIJ', 'makeringlatticeCIJ') or
+                                               (c[0] == 'makeevenCIJ' and c[1][2] == 1))]
     light = [c for c in cf if c not in heavy]
     units = [[c] for c in heavy]
     for k in range(0, len(light), 12):
@@ -186,7 +202,7 @@ def judge(t, fn, args, status, value, case_fn):
     return bad
 
 
-def explore(fn, args):
+def explore(fn, args, mode=None):
     t = Tally(PROPERTY)
     call = make_call(fn, args)
     cfg = {'fn': fn, 'args': args}
@@ -205,9 +221,14 @@ def explore(fn, args):
         depth = 2 if args[0] == 3 else 1
     ex = Explorer(call, vec_unit_points=(0.0, 0.999999), unit_points=(0.25, 0.75), depth_bound=depth,
                   max_executions=600000)
+    ex.allow_perm_subset = mode == 'subset'
     with quiet():
         st = ex.explore(on_complete)
     t.c['configs'] += 1
+    if mode == 'subset':
+        t.c['configs_with_answer_subset'] += 1
+        t.note('configurations marked "subset" answer permutation menus beyond 8! from a fixed list of 2n+2 structured orders '
+               '(bctmc.explorer.perm_subset): complete over the parameter grid and that list, not over all n! answers')
     t.c['evaluations'] += st['completed']
     t.c['executions'] += st['executions']
     t.c['states'] += st['states']
@@ -226,8 +247,8 @@ def explore(fn, args):
 
 def work(unit):
     t = Tally(PROPERTY)
-    for fn, args in unit:
-        t.merge(explore(fn, args))
+    for c in unit:
+        t.merge(explore(*c))
     return t
 
 
